@@ -839,6 +839,21 @@ func (c *FnCtx) evPureCall(f *types.Func, recv *Val, args []specExpr, env *evalE
 	for _, a := range args {
 		vals = append(vals, c.ev(a, env))
 	}
+	// getters of /repo and interface methods implemented only by getters are evaluated by
+	// executing their code (same as the executor does for calls), not by a symbol
+	if recv != nil && f.Pkg() != nil && strings.HasPrefix(f.Pkg().Path(), repoMod) {
+		if c.isIface(recv.T) {
+			if r, ok := c.dispatchInline(c.state(env), recv, f.Name(), vals[1:]); ok {
+				return r
+			}
+		} else if sf := c.L.prog.FuncValue(f); sf != nil {
+			if sp := c.specOf(sf); sp == nil || !sp.pure {
+				if r, ok := c.inlineSimple(c.state(env), sf, vals); ok {
+					return r
+				}
+			}
+		}
+	}
 	full := pureName(f, recvT)
 	// heap-reading pure functions of /repo take their `reads` heaps as extra arguments
 	v := c.applyPureReads(c.state(env), full, f, sig, recvT, vals)
@@ -915,7 +930,11 @@ func (c *FnCtx) mapLen(st *State, m *Val) Term {
 	dn, ds, _, _ := c.mapHeaps(K, V)
 	d := c.heapGet(st, dn, ds)
 	f := "maplen." + sym(c.sortOf(K))
-	c.declare(f, fmt.Sprintf("(declare-fun %s ((Array %s Bool)) Int)", f, c.sortOf(K)))
+	if !c.declared[f] {
+		c.declare(f, fmt.Sprintf("(declare-fun %s ((Array %s Bool)) Int)", f, c.sortOf(K)))
+		// the empty map has length 0
+		c.asserts = append(c.asserts, eq(app(f, fmt.Sprintf("((as const (Array %s Bool)) false)", c.sortOf(K))), "0"))
+	}
 	t := app(f, app("select", d, m.S))
 	key := "maplen:" + t
 	if !c.assumed[key] {
